@@ -5,7 +5,7 @@ Reads /tmp/mut2/<Cxx>-out (the sub-agent's output), /tmp/mut2/confirm*.log (our 
 import json, os, re, shutil, sys, glob
 for P in sys.argv[1:]:
     out = f"/tmp/mut2/{P}-out"
-    dst = f"/verif/seeded/{P}"
+    dst = f"/verif/seeded/{P}" + os.environ.get("SEED_SUFFIX", "")
     os.makedirs(dst, exist_ok=True)
     shutil.copy(f"{out}/patch.diff", f"{dst}/patch.diff")
     demos = [f for f in glob.glob(f"{out}/*.rs")]
@@ -31,7 +31,7 @@ for P in sys.argv[1:]:
         "confirmed_by_us": {"suite_passed": pa, "suite_failed": fa, "demo_rc_with_change": w, "demo_rc_without_change": wo},
         "detected_by_check": bool(vline),
         "check_verdict": (viol[0][:300] if viol else None),
-        "how_to_replay": f"git -C /repo apply /verif/seeded/{P}/patch.diff && /verif/check {P}; git -C /repo checkout -- .",
+        "how_to_replay": f"git -C /repo apply /verif/seeded/{P}" + os.environ.get("SEED_SUFFIX", "") + f"/patch.diff && /verif/check {P}; git -C /repo checkout -- .",
     })
     json.dump(meta, open(f"{dst}/meta.json", "w"), indent=1)
     print(P, "saved; detected:", bool(vline), (viol[0][:100] if viol else ""))
